@@ -11,6 +11,7 @@ func init() {
 const survMu = "protocol/surveyor.socket.Mutex"
 
 func runC07(p *Prog, r *Report) {
+	runSweeps(p, r, "C07.18/survey-reaches-every-respondent", "the loops that snapshot the connected respondents and offer the survey to each cannot be left early", surveySweeps)
 	crossCutting(p, r, "C07.X", "protocol/surveyor", "protocol/xsurveyor", "protocol/respondent", "protocol/xrespondent")
 	lockBalance(p, r, "C07.8/E1", "protocol/surveyor", "protocol/xsurveyor", "protocol/respondent")
 	q := NewQ(p, r)
